@@ -262,6 +262,14 @@ def alphabet(rng, n_base):
         cid = "S%d" % k
         cases[cid] = c
         cases[cid + "~"] = dict(c, precision="single" if prec == "double" else "double")
+    # heights and profiles handed over as float32 arrays (read from a float32 NetCDF): the same request under 1 and N threads
+    # must agree to rounding (a thread-specific conversion of the kernel arguments changes np.diff(z) from float32 to float64)
+    if n_base > 8:
+        c32 = dict(cases["S0"])
+        c32["z"] = np.asarray(c32["z"], dtype=np.float32).astype(float)
+        c32["profiles"] = tuple(np.asarray(a, dtype=np.float32).astype(float) for a in c32["profiles"])
+        c32["_present"] = {"f32": True}
+        cases["S0f"] = sc.tame(c32, bound=1e9)
     # one-argument neighbours (ids S<k><letter>): same array shapes, modes and flags as S<k>, one argument changed -
     # exactly the calls a piece of hidden state keyed by too little would confuse with S<k>
     for k in range(n_base):
@@ -570,6 +578,11 @@ def check(ctx):
     bridge_pool = ThreadPoolExecutor(max_workers=1)
     bridge_job = bridge_pool.submit(py2coq_runtime.run, shim)
 
+    # the thread set-up block lives in solver.py between translated statements: the solver's statement skeleton is an
+    # obligation of this property as well (a branch-specific conversion of the kernel arguments: seed C12-7)
+    import solverslices
+    solverslices.check_skeleton(ctx)
+
     # (0) census of global-state accesses in the source
     got = census(core.SRC)
     diffs = census_diff(got)
@@ -604,6 +617,9 @@ def check(ctx):
     # targeted pairs: a solve right after the neighbour that shares its padded extent (smaller interior) or its padded
     # geometry (fewer retained modes) - the histories on which a work buffer that is only partly rewritten shows
     pair_ids = [cid for cid in ids if re.match(r"^S\d+[sm]$", cid)]
+    if "S0f" in cases:
+        jobs.append({"name": "hf32", "ops": [["solve", "S0f"], ["threads", min(2, tmax)], ["solve", "S0f"], ["threads", 1], ["solve", "S0f"], ["threads", min(4, tmax)], ["solve", "S0f"]],
+                     "env": {}, "cache": "ser", "kind": "history"})
     for k, cid in enumerate(pair_ids[: (8 if ctx.thorough else 4)]):
         jobs.append({"name": "hp%02d" % k, "ops": [["solve", base_of(cid)], ["solve", cid], ["solve", base_of(cid)]], "env": {}, "cache": "ser", "kind": "history"})
     # (2) alone references: every (solve, thread setting) of the histories, plus one-thread references
